@@ -307,6 +307,90 @@ pub fn run_case(c: &Case, info: &mut CaseInfo) -> Result<(), Fail> {
     }
 }
 
+
+// ---------------------------------------------------------------------------------------------
+// adversarial keys: every key of a cluster has the same home slot in the item map
+
+#[derive(Debug, Clone, Serialize, Deserialize)]
+pub struct ClusterCase {
+    pub lg_max: u8,
+    pub slot: u16,
+    /// cluster size as a fraction (x/255) of the map capacity 0.75 * 2^lg_max
+    pub cluster_q: u8,
+    /// further keys with arbitrary home slots, offered after the cluster (purges once the map is full)
+    pub extra: u16,
+    pub start: u64,
+    pub wseed: u64,
+}
+
+fn cluster_case() -> impl Strategy<Value = ClusterCase> {
+    (prop_oneof![1 => 3u8..=8, 3 => 9u8..=10, 1 => Just(11u8)], any::<u16>(), prop_oneof![1 => 1u8..=254, 2 => Just(255u8)], prop_oneof![2 => Just(0u16), 2 => 0u16..=200, 1 => 0u16..=3000], any::<u64>(), any::<u64>())
+        .prop_map(|(lg_max, slot, cluster_q, extra, start, wseed)| ClusterCase { lg_max, slot, cluster_q, extra, start, wseed })
+}
+
+fn run_cluster(c: &ClusterCase, info: &mut CaseInfo) -> Result<(), Fail> {
+    let size = 1u64 << c.lg_max;
+    let cap = (size * 3 / 4) as usize;
+    let n_cluster = ((cap * c.cluster_q as usize) / 255).max(1);
+    let slot = c.slot as u64 & (size - 1);
+    // the item map hashes an item with MurmurHash3 (seed 9001) and takes the low bits of h1 as the home slot;
+    // equal low lg_max bits collide at every smaller map size as well
+    let mut keys: Vec<u64> = Vec::with_capacity(n_cluster + c.extra as usize);
+    let mut x = c.start;
+    while keys.len() < n_cluster {
+        if crate::kit::refhash::murmur3_x64_128(&x.to_le_bytes(), crate::kit::refhash::DEFAULT_SEED).0 & (size - 1) == slot {
+            keys.push(x);
+        }
+        x = x.wrapping_add(1);
+    }
+    let mut sm = SplitMix(c.wseed);
+    let cluster: std::collections::BTreeSet<u64> = keys.iter().copied().collect();
+    let mut extras: Vec<u64> = vec![];
+    for _ in 0..c.extra {
+        let e = sm.next();
+        if !cluster.contains(&e) && !extras.contains(&e) {
+            extras.push(e);
+        }
+    }
+    let mut cl: Vec<u64> = keys.clone();
+    for i in (1..cl.len()).rev() {
+        cl.swap(i, sm.below(i as u64 + 1) as usize);
+    }
+    // cluster keys first (shuffled), then the extras
+    let order: Vec<u64> = cl.into_iter().chain(extras.iter().copied()).collect();
+    keys.extend(extras.iter().copied());
+    let pos: HashMap<u64, u64> = keys.iter().enumerate().map(|(i, k)| (*k, i as u64)).collect();
+    let conv = |id: u64| keys[id as usize];
+    let mut side: Side<u64> = Side { sk: FrequentItemsSketch::new(size as usize), truth: HashMap::new(), total: 0, sizes: [c.lg_max].into_iter().collect(), merged: false };
+    let domain = keys.len() as u64;
+    let checkpoints = [n_cluster / 2, n_cluster, n_cluster + (c.extra as usize) / 2];
+    for (i, k) in order.iter().enumerate() {
+        let w = 1 + sm.below(1000);
+        side.sk.update_with_count(*k, w);
+        *side.truth.entry(pos[k]).or_insert(0) += w;
+        side.total += w;
+        if checkpoints.contains(&(i + 1)) {
+            check_side(&side, domain, &conv, &format!("map size {size}, {} keys with home slot {slot}, after {} updates", n_cluster, i + 1))?;
+        }
+    }
+    // a second pass over the cluster (every key must be found again at its probe distance)
+    for k in order.iter().take(n_cluster) {
+        side.sk.update_with_count(*k, 1);
+        *side.truth.entry(pos[k]).or_insert(0) += 1;
+        side.total += 1;
+    }
+    check_side(&side, domain, &conv, &format!("map size {size}, {} keys with home slot {slot}, end", n_cluster))?;
+    info.label(format!("lg_max={}", c.lg_max));
+    if n_cluster > 256 {
+        info.label("probe_distance>=256");
+    }
+    if side.sk.maximum_error() > 0 {
+        info.label("purged");
+    }
+    info.nontrivial = n_cluster >= 8;
+    Ok(())
+}
+
 pub fn def() -> PropDef {
     PropDef {
         id: "C07",
@@ -334,6 +418,16 @@ pub fn def() -> PropDef {
                 limit_factor: 1,
                 strategy: || case_strategy(true),
                 check: run_case,
+            }),
+            Box::new(PropSub {
+                name: "clustered_keys",
+                rule: "adversarial u64 keys found by search with the reference hash: a cluster of up to 0.75 * 2^lg keys (lg 3..=11) that all share one home slot of the item map (probe distances up to the cluster size, beyond 255 for lg >= 9), offered in random order with random weights, followed by 0..3000 ordinary keys (purges), then the cluster once more; the same exact-frequency oracle as above at four points. non-trivial = cluster of at least 8 keys",
+                cases_quick: 6_000,
+                cases_thorough: 60_000,
+                max_shrink_iters: 60,
+                limit_factor: 2,
+                strategy: cluster_case,
+                check: run_cluster,
             }),
         ],
         post: None,
